@@ -128,6 +128,62 @@ fn run_l<L: Language + 'static, N: Analysis<L> + Default + 'static>(c: &ProbeCas
         let pr = eg.progress();
         pr.sum_of_symmetries > pr.number_of_live_classes || st.handles.iter().zip(st.terms.iter()).any(|(h, t)| eg.find_applied_id(h).slots().len() < t.fv().len())
     };
+    // node-level insertion with the handles returned earlier as children (by now possibly stale: merged away, with arguments
+    // for slots that became redundant): EGraph::add / EGraph::lookup must agree with inserting the corresponding term
+    {
+        let sig = c.base.lang.sig();
+        let ops: Vec<&OpSig> = sig.ops.iter().filter(|o| !o.name.is_empty() && !o.fields.is_empty() && o.fields.len() <= 3 && o.fields.iter().all(|f| matches!(f, Field::Kid(0)))).collect();
+        let n = st.handles.len();
+        let mut done = 0;
+        if !ops.is_empty() && n > 0 {
+            for start in 0..n.min(3) {
+                let o = ops[(start + c.rot as usize) % ops.len()];
+                let k = o.fields.len();
+                let idx: Vec<usize> = (0..k).map(|j| (start * 2 + j * (1 + c.rot as usize)) % n).collect();
+                let mut elems = vec![SyntaxElem::String(o.name.to_string())];
+                for i in &idx {
+                    elems.push(SyntaxElem::AppliedId(st.handles[*i].clone()));
+                }
+                let Some(node) = L::from_syntax(&elems) else { continue };
+                let term = Tm { op: o.name.to_string(), args: idx.iter().map(|i| Arg::K(vec![], st.terms[*i].clone())).collect() };
+                if Ground::max_fv(&[term.clone()]) > 6 {
+                    continue;
+                }
+                let fp0 = fingerprint(&eg, &tracked);
+                let r = eg.lookup(&node);
+                let fp1 = fingerprint(&eg, &tracked);
+                if fp0 != fp1 {
+                    return Err(format!("EGraph::lookup of the node {:?} changed the e-graph", node));
+                }
+                let a = eg.add(node.clone());
+                let fp2 = fingerprint(&eg, &tracked);
+                let created = fp2.classes != fp1.classes || fp2.nodes != fp1.nodes;
+                obs.cmp(4);
+                if r.is_some() == created {
+                    return Err(format!("EGraph::lookup({:?}) (children = handles returned earlier) returned {:?} but EGraph::add of it {}", node, r, if created { "created something" } else { "created nothing" }));
+                }
+                if let Some(r) = &r {
+                    if !eg.eq(r, &a) {
+                        return Err(format!("EGraph::lookup({:?}) gives {:?}, EGraph::add gives {:?}: not equal", node, r, a));
+                    }
+                }
+                // the node denotes the term built from the children's terms
+                let b = eg.add_expr(parse_tm::<L>(&term, nm));
+                let fp3 = fingerprint(&eg, &tracked);
+                if fp3.classes != fp2.classes || fp3.nodes != fp2.nodes {
+                    return Err(format!("after EGraph::add({:?}), inserting the same thing as a term {} created something", node, term.render(nm)));
+                }
+                if !eg.eq(&a, &b) {
+                    return Err(format!("EGraph::add({:?}) = {:?} but the term {} is {:?}: not equal", node, a, term.render(nm), b));
+                }
+                tracked.push(a);
+                done += 1;
+            }
+        }
+        if done > 0 {
+            obs.label("node-level-add-with-old-handles");
+        }
+    }
     for p in &c.probes {
         let Some((t, must, kind)) = probe_term(c, p, alphabet) else { continue };
         let re = parse_tm::<L>(&t, nm);
